@@ -87,6 +87,19 @@ class Builder(object):
             o = Obj(None, fields, clsname=clsname)
         else:
             o = Obj(cinfo, fields)
+            if fields:
+                # attributes the class defines (assigned in __init__ / resetState) that the contract's pre-state does not
+                # model: any use of them is outside the contract (undecided), never a silent pass or a false alarm
+                import ast as _ast
+                from .values import Opaque
+                for mname in ("__init__", "resetState"):
+                    m = cinfo.methods.get(mname)
+                    if m is None:
+                        continue
+                    for n in _ast.walk(m.node):
+                        if isinstance(n, _ast.Attribute) and isinstance(n.ctx, _ast.Store) and isinstance(n.value, _ast.Name) \
+                                and n.value.id == "self" and n.attr not in o.fields:
+                            o.fields[n.attr] = Opaque("%s.%s (attribute not modelled by the contract's pre-state)" % (clsname, n.attr))
         return o
 
     def list(self, items):
@@ -838,6 +851,7 @@ def verify_contract(program, registry, con, timeout_ms=None, active_cases=None, 
     solver_s = 0.0
     seen_keys = set()
     undecided_count = {}
+    refuted_count = {}
     for p in paths:
         if not p.obligations:
             continue
@@ -850,12 +864,19 @@ def verify_contract(program, registry, con, timeout_ms=None, active_cases=None, 
             if key in seen_keys:
                 continue
             seen_keys.add(key)
+            if refuted_count.get(ob.name, 0) >= 4 and not ob.meta.get("expected"):
+                # enough counter-models of this clause on other paths: report those, do not spend time on more
+                res.setdefault("skipped_after_refutation", 0)
+                res["skipped_after_refutation"] += 1
+                continue
             if undecided_count.get(ob.name, 0) >= 2:
                 v = Verdict(ob, "unknown", "skipped", 0.0, reason="two instances of this clause are already undecided (time budget)")
             else:
                 v = inc.solve(ob)
             if v.status in ("unknown", "candidate"):
                 undecided_count[ob.name] = undecided_count.get(ob.name, 0) + 1
+            if v.status == "refuted":
+                refuted_count[ob.name] = refuted_count.get(ob.name, 0) + 1
             solver_s += v.secs
             rec = {"name": ob.name, "kind": ob.kind, "status": v.status, "backend": v.backend,
                    "secs": round(v.secs, 4), "props": ob.meta.get("props", []), "path": ob.path}
